@@ -30,7 +30,9 @@
   that log with the model's step trace (`Driver.Thr.traceOf`), every chunk written, the per-call
   results and the final flags.  The step lists below were written from those logs.
 
-  Not modelled: socket write failures (`TransportFail`), the 1002 Close of a protocol error and
+  Socket write failures (`TransportFail`) and a `sendall` of any number of chunks are in
+  `Model/ThreadsN.lean` (the same states and programs, a more general socket; this file is its
+  instance "two chunks, no failure").  Not modelled: the 1002 Close of a protocol error and
   `session.close()` called by the application (single-threaded paths: C04, C08, C09, C13); the
   loop thread's tests of `closed` / `_sock` never branch (it is their only writer and stops after
   writing them).
@@ -65,6 +67,8 @@ structure Cfg where
   key : Tid → Nat → Bytes := fun _ _ => [0, 0, 0, 0]
   /-- zlib: bytes of the block emitted by a sync flush, given (context, content); minus the tail -/
   zenc : Bytes → Bytes → Bytes := fun _ _ => []
+  /-- `server_no_context_takeover`: the decompressor is reset after every received message -/
+  serverNoTakeover : Bool := false
 
 inductive Call
   /-- `send_text(text, compress)`; `payload` is the UTF-8 encoding of the text -/
@@ -79,11 +83,19 @@ inductive Call
   | onClose (code : Option Nat) (reason : Bytes)
   /-- event loop: the ping timer fires in `_check_auto_ping` -/
   | autoPing
+  /-- event loop: a COMPRESSED data message from the server is read, one frame (`d` = its content as
+      the inflater returns it); `Message.build` inflates it with `Deflate.decompress`: one `_inflate`
+      per frame, then one for the `00 00 ff ff` tail.  Nothing is written. -/
+  | onData (d : Bytes)
+  /-- the same for a message in two fragments -/
+  | onData2 (d1 d2 : Bytes)
   deriving Repr, DecidableEq, Inhabited
 
-/-- the WebSocketError raised inside `session.write` -/
+/-- the WebSocketError raised inside `session.write`; `transport` = `TransportFail` raised by
+    `_sendall` when the socket's `sendall` fails (only the generalised socket of
+    `Model/ThreadsN.lean` produces it; the socket of this file never fails) -/
 inductive Err
-  | unavailable | closed | closing
+  | unavailable | closed | closing | transport
   deriving Repr, DecidableEq, Inhabited
 
 inductive PaySrc
@@ -153,6 +165,13 @@ inductive Step
   | sockClose
   /-- `self._sock = None` -/
   | setSockNone
+  /-- receive side, event-loop thread only (`Deflate._inflate`): `self._decompressobj.decompress(data)`;
+      `d` = what comes out.  Touches the DEcompressor only (`C11Src.receive_path_leaves_compressor_alone`) -/
+  | inflate (d : Bytes)
+  /-- `self._decompressobj.unused_data` (a look at the decompressor) -/
+  | dpeek
+  /-- `reset_decompressor()` under `server_no_context_takeover` -/
+  | dreset
   deriving Repr, DecidableEq, Inhabited
 
 /-- the state checks of `session.write` (`_check_writable`) -/
@@ -205,6 +224,14 @@ def compile (v : Variant) (cfg : Cfg) : Call → List Step
     [.rdSock, .rdClosed, .rdClosed, .brIfClosing .replyClose] ++ closeBody v code r ++
       [.setClosing true, .rdClosed, .rdClosed]
   | .autoPing => writeProg v ⟨9, .lit []⟩ ++ [.rdClosed]
+  -- `_recv`, `feed`: `if self.is_closed`; `Message.build` -> `Deflate.decompress`: `_inflate(frame)` for
+  -- every frame, `_inflate(tail)`, the optional reset; `if self.is_closed: break`, `while not is_closed`
+  | .onData d =>
+    [.rdSock, .rdClosed, .inflate d, .dpeek, .inflate [], .dpeek] ++
+      (if cfg.serverNoTakeover then [.dreset] else []) ++ [.rdClosed, .rdClosed]
+  | .onData2 d1 d2 =>
+    [.rdSock, .rdClosed, .inflate d1, .dpeek, .inflate d2, .dpeek, .inflate [], .dpeek] ++
+      (if cfg.serverNoTakeover then [.dreset] else []) ++ [.rdClosed, .rdClosed]
 
 /-- the application message a call sends (what the peer must end up with) -/
 def Call.msg : Call → Bytes
@@ -216,6 +243,8 @@ def Call.msg : Call → Bytes
   | .onPing d => d
   | .onClose code r => buildClosePayload code r
   | .autoPing => []
+  | .onData _ => []
+  | .onData2 _ _ => []
 
 def Call.op : Call → Nat
   | .sendText _ _ => 1
@@ -226,6 +255,8 @@ def Call.op : Call → Nat
   | .onPing _ => 10
   | .onClose _ _ => 8
   | .autoPing => 9
+  | .onData _ => 0
+  | .onData2 _ _ => 0
 
 structure Shared where
   closing : Bool := false
@@ -238,6 +269,8 @@ structure Shared where
   zctx : Bytes := []
   /-- who stored `sent_close_time` last -/
   closeTime : Option Tid := none
+  /-- the DEcompressor of the receive side: what it has inflated since it was created -/
+  dctx : Bytes := []
   deriving Repr, DecidableEq, Inhabited
 
 /-- outcome of a finished call -/
@@ -334,6 +367,9 @@ def exec (v : Variant) (t : Tid) (st : Step) (r : List Step) (sh : Shared) (c : 
   | .setCloseTime => ({ sh with closeTime := some t }, { c with rest := r })
   | .sockClose => ({ sh with sockShut := true }, { c with rest := r })
   | .setSockNone => ({ sh with sockOpen := false }, { c with rest := r })
+  | .inflate d => ({ sh with dctx := sh.dctx ++ d }, { c with rest := r })
+  | .dpeek => (sh, { c with rest := r })
+  | .dreset => ({ sh with dctx := [] }, { c with rest := r })
 
 def setTh (s : State) (t : Tid) (th : Thread) (sh : Shared) : State :=
   { sh := sh, th := fun u => if u = t then th else s.th u }
